@@ -108,6 +108,7 @@ type chainExec struct {
 	tr        *traceWriter
 	entered   map[int]bool
 	cancel    gocontext.CancelFunc
+	origReq   *http.Request // the request as it was before a "C" op swapped in one with a derived context
 	panicLog  bool
 	inRec     int
 	inRecNext int
@@ -190,7 +191,18 @@ func (x *chainExec) body(h int, c flamego.Context) {
 		case "R":
 			c.Map(customRH)
 			x.ev(map[string]interface{}{"e": "setrh", "h": h})
+		case "U":
+			// the middleware that installed a derived (and meanwhile cancelled) context puts the original request back:
+			// from here on the request is live again
+			if x.origReq != nil {
+				c.Request().Request = x.origReq
+				x.origReq = nil
+				x.ev(map[string]interface{}{"e": "uncancel", "h": h})
+			}
 		case "C":
+			if x.v.Der && x.origReq == nil {
+				x.origReq = c.Request().Request
+			}
 			if x.v.Der {
 				// the usual timeout-middleware pattern: replace the request by one with a derived context, then cancel it
 				ctx, cancel := gocontext.WithCancel(c.Request().Context())
@@ -552,6 +564,7 @@ func chainReplay(raw json.RawMessage, idx int, tr *traceWriter) {
 		x.panicLog = false
 		x.detail = false
 		x.inRec, x.inRecNext = 0, 0
+		x.origReq = nil
 		meth := v.Meth
 		if meth == "" {
 			meth = "GET"
@@ -645,6 +658,9 @@ func chainGen(seed int64, n int, args []string, out *json.Encoder) {
 					ops = append(ops, "W")
 				case r < 16:
 					ops = append(ops, "C")
+					if rng.Intn(3) == 0 {
+						ops = append(ops, "N", "U") // cancel a derived context, let the rest run (it must not), restore
+					}
 				case r == 19 && kind == "ret":
 					ops = append(ops, "R")
 				case r < 18 && (kind == "rec"):
